@@ -350,4 +350,233 @@ Section Rxn.
       + rewrite (attr_at_agree h _ m' "_contexts"); auto. apply Hsame. cbn; auto.
       + rewrite Hsame; auto. cbn; auto.
   Qed.
+
+  Lemma ri_ext : forall h W cm cg cm2 cg2,
+      RI h W cm cg -> (forall q, In q MM -> cm (r_old q) = cm2 (r_old q)) ->
+      (forall q, In q GG -> cg (r_old q) = cg2 (r_old q)) -> RI h W cm2 cg2.
+  Proof.
+    intros h W cm cg cm2 cg2 [HS Hmm Hgg Hdm Hdg Hc Hsp] E1 E2. split; auto.
+    - intros q Hq. rewrite <- (E1 q Hq). auto.
+    - intros q Hq. rewrite <- (E2 q Hq). auto.
+  Qed.
+
+  Lemma mm_new_inj : forall q1 q2, In q1 MM -> In q2 MM -> r_new q1 = r_new q2 -> q1 = q2.
+  Proof.
+    intros q1 q2 H1 H2 E. eapply (nodup_flat_same cells3 MM q1 q2 (r_new q1)); eauto using mm_nodup; cbn; auto.
+  Qed.
+  Lemma gg_new_inj : forall q1 q2, In q1 GG -> In q2 GG -> r_new q1 = r_new q2 -> q1 = q2.
+  Proof.
+    intros q1 q2 H1 H2 E. eapply (nodup_flat_same cells3 GG q1 q2 (r_new q1)); eauto using gg_nodup; cbn; auto.
+  Qed.
+  Lemma mm_old_inj : forall q1 q2, In q1 MM -> In q2 MM -> r_old q1 = r_old q2 -> q1 = q2.
+  Proof.
+    clear - HMM_old. induction MM as [|z L IH]; intros q1 q2 H1 H2 E; [contradiction|]. cbn in HMM_old. inv HMM_old.
+    destruct H1 as [->|H1], H2 as [->|H2]; auto.
+    - exfalso. apply H3. rewrite E. apply in_map. exact H2.
+    - exfalso. apply H3. rewrite <- E. apply in_map. exact H1.
+  Qed.
+  Lemma gg_id_inj : forall q1 q2, In q1 GG -> In q2 GG -> idof h0 (r_old q1) = idof h0 (r_old q2) -> q1 = q2.
+  Proof.
+    clear - HGG_ids. induction GG as [|z L IH]; intros q1 q2 H1 H2 E; [contradiction|]. cbn in HGG_ids. inv HGG_ids.
+    destruct H1 as [->|H1], H2 as [->|H2]; auto.
+    - exfalso. apply H3. rewrite E. apply (in_map (fun q => idof h0 (r_old q))). exact H2.
+    - exfalso. apply H3. rewrite <- E. apply (in_map (fun q => idof h0 (r_old q))). exact H1.
+  Qed.
+
+  (* ---------------- the stoichiometry loop of the current reaction *)
+  Definition fM (kv : value * value) : value * value :=
+    (Ref (match fst kv with Ref a => lookup3 a MM | At _ => 0 end), snd kv).
+  Definition cur (x a : addr) (p : list (value * value)) : list addr := if has_key (Ref a) p then [x] else [].
+
+  Definition Registered (l : list (value * value)) : Prop :=
+    forall kv, In kv l -> exists q, In q MM /\ fst kv = Ref (r_old q).
+
+  Lemma link_met_step : forall h W cm cg r' nd ok p ma coef rec,
+      RI h W (fun a => cm a ++ cur r' a p) cg ->
+      In nd W -> ~ In nd base -> r' <> nd -> ~ In r' base -> r' < List.length h ->
+      get h nd = Some (mkCell KDict (map fM p)) ->
+      attr_at h r' "_metabolites" = Some (Ref nd) ->
+      In rec MM -> r_old rec = ma -> ~ In (Ref ma) (keys_of p) -> (forall a, ~ In r' (cm a)) -> Registered p ->
+      exists h2, link_met dlm r' (h, ok) (Ref ma, coef) = (h2, ok) /\
+                 RI h2 W (fun a => cm a ++ cur r' a (p ++ [(Ref ma, coef)])) cg /\
+                 get h2 nd = Some (mkCell KDict (map fM (p ++ [(Ref ma, coef)]))) /\
+                 attr_at h2 r' "_metabolites" = Some (Ref nd) /\
+                 Tr [nd; r_set rec] h W h2 W.
+  Proof.
+    intros h W cm cg r' nd ok p ma coef rec HR Hnd Hndb Hrn Hrb Hrlt Hgnd Hattr Hrec Hma Hnew Hcm Hreg.
+    pose proof (ri_st _ _ _ _ HR) as HS.
+    destruct (HMM_idat rec Hrec) as [Hlt [idv [Hid Hidat]]]. rewrite Hma in Hlt, Hid.
+    unfold link_met. cbn [fst snd].
+    rewrite (st_attr_old n h0 h W ma "_id" HS Hlt). fold (idof h0 ma). rewrite Hid.
+    assert (get_by_id h dlm idv = Some (r_new rec)) as Hgb.
+    { eapply get_by_id_found; [apply (ri_dlm _ _ _ _ HR)| |exact HMM_ids|exact Hrec|rewrite Hma; exact Hid].
+      intros q Hq. eapply ri_mm_id; eauto. }
+    rewrite Hgb, Hattr.
+    set (a' := r_new rec) in *.
+    destruct (st_put n h0 h W nd (Ref a') coef HS Hnd) as [HS1 HT1].
+    set (h1 := put h nd (Ref a') coef) in *.
+    assert (RI h1 W (fun a => cm a ++ cur r' a p) cg) as HR1.
+    { eapply ri_tr; [exact HR|exact HS1|exact HT1| |].
+      - intros x [<-|[]]. exact Hnd.
+      - intros x [<-|[]]. exact Hndb. }
+    pose proof (ri_mm _ _ _ _ HR1 rec Hrec) as [Hnw [Hsw [Hne [Hoc [Hmod [Hlk Hset]]]]]].
+    fold a' in Hlk. rewrite Hlk.
+    assert (has_key (Ref ma) p = false) as Hk0.
+    { destruct (has_key (Ref ma) p) eqn:E; auto. apply has_key_in in E. contradiction. }
+    assert (~ In r' ((fun a => cm a ++ cur r' a p) (r_old rec))) as Hx.
+    { cbv beta. rewrite Hma. unfold cur. rewrite Hk0, app_nil_r. apply Hcm. }
+    destruct (ri_add_met h1 W _ cg rec r' HR1 Hrec Hx) as [HR2 HT2]. cbv zeta in HR2, HT2.
+    set (h2 := set_add h1 (r_set rec) (Ref r')) in *.
+    assert (nd <> r_set rec) as Hnds.
+    { intro Heq. apply Hndb. rewrite Heq. eapply base_mm; eauto. cbn; auto. }
+    assert (r' <> r_set rec) as Hrs.
+    { intro Heq. apply Hrb. rewrite Heq. eapply base_mm; eauto. cbn; auto. }
+    exists h2. split; [reflexivity|]. split; [|split; [|split]].
+    - eapply ri_ext; [exact HR2| |auto]. intros q Hq. cbv beta. unfold cur. rewrite has_key_app.
+      destruct (Nat.eqb (r_old q) (r_old rec)) eqn:E.
+      + apply Nat.eqb_eq in E. rewrite E, Hma, Hk0. cbn [orb has_key keys_of map existsb fst]. rewrite value_eqb_refl.
+        cbn [orb]. rewrite app_nil_r. reflexivity.
+      + apply Nat.eqb_neq in E. rewrite Hma in E.
+        assert (has_key (Ref (r_old q)) [(Ref ma, coef)] = false) as ->.
+        { cbn. rewrite orb_false_r. apply Nat.eqb_neq. exact E. }
+        rewrite orb_false_r. reflexivity.
+    - unfold h2. rewrite get_set_add_ne by auto. unfold h1. rewrite (get_put_eq _ _ _ _ _ Hgnd). cbn [ckind citems].
+      rewrite set_item_new.
+      + rewrite map_app. cbn [map]. unfold fM at 3. cbn [fst snd]. rewrite <- Hma.
+        rewrite (lookup3_found MM rec HMM_old Hrec). reflexivity.
+      + intro Hin. unfold keys_of in Hin. rewrite map_map in Hin. apply in_map_iff in Hin as [kv [Hkv Hin]].
+        destruct (Hreg kv Hin) as [q [Hq Hfst]]. unfold fM in Hkv. cbn [fst] in Hkv. rewrite Hfst in Hkv.
+        rewrite (lookup3_found MM q HMM_old Hq) in Hkv. inv Hkv.
+        assert (q = rec) as -> by (apply mm_new_inj; auto).
+        apply Hnew. rewrite <- Hfst. apply in_map. exact Hin.
+    - unfold attr_at. unfold h2. rewrite get_set_add_ne by auto. unfold h1. rewrite get_put_ne by auto. exact Hattr.
+    - pose proof (tr_trans _ _ _ _ _ _ _ _ HT1 HT2) as H. exact H.
+  Qed.
+
+  Lemma link_mets_loop : forall l h W cm cg r' nd ok p,
+      RI h W (fun a => cm a ++ cur r' a p) cg ->
+      In nd W -> ~ In nd base -> r' <> nd -> ~ In r' base -> r' < List.length h ->
+      get h nd = Some (mkCell KDict (map fM p)) ->
+      attr_at h r' "_metabolites" = Some (Ref nd) ->
+      (forall a, ~ In r' (cm a)) -> Registered (p ++ l) -> NoDup (keys_of (p ++ l)) ->
+      exists h2, fold_left (link_met dlm r') l (h, ok) = (h2, ok) /\
+                 RI h2 W (fun a => cm a ++ cur r' a (p ++ l)) cg /\
+                 get h2 nd = Some (mkCell KDict (map fM (p ++ l))) /\
+                 attr_at h2 r' "_metabolites" = Some (Ref nd) /\
+                 Tr (nd :: map r_set MM) h W h2 W.
+  Proof.
+    induction l as [|kv l IH]; intros h W cm cg r' nd ok p HR Hnd Hndb Hrn Hrb Hrlt Hgnd Hattr Hcm Hreg Hnodup.
+    - exists h. rewrite app_nil_r. split; [reflexivity|]. split; [exact HR|]. split; [exact Hgnd|]. split; [exact Hattr|].
+      eapply tr_weaken; [apply tr_refl|]. intros x [].
+    - assert (In kv (p ++ kv :: l)) as Hkvin by (apply in_or_app; right; left; reflexivity).
+      destruct (Hreg kv Hkvin) as [rec [Hrec Hfst]]. clear Hkvin.
+      destruct kv as [k coef]. cbn [fst] in Hfst. subst k.
+      assert (~ In (Ref (r_old rec)) (keys_of p)) as Hnew.
+      { unfold keys_of in Hnodup. rewrite map_app in Hnodup. cbn in Hnodup. apply NoDup_remove_2 in Hnodup.
+        intro Hin. apply Hnodup. apply in_or_app. left. exact Hin. }
+      assert (Registered p) as Hregp by (intros x Hx; apply Hreg; apply in_or_app; left; exact Hx).
+      destruct (link_met_step h W cm cg r' nd ok p (r_old rec) coef rec HR Hnd Hndb Hrn Hrb Hrlt Hgnd Hattr Hrec eq_refl Hnew Hcm Hregp)
+        as [h1 [E1 [HR1 [Hg1 [Ha1 HT1]]]]].
+      cbn [fold_left]. rewrite E1.
+      replace (p ++ (Ref (r_old rec), coef) :: l) with ((p ++ [(Ref (r_old rec), coef)]) ++ l) in * by (rewrite <- app_assoc; reflexivity).
+      assert (r' < List.length h1) as Hrlt1 by (pose proof (tr_len _ _ _ _ _ HT1); lia).
+      destruct (IH h1 W cm cg r' nd ok _ HR1 Hnd Hndb Hrn Hrb Hrlt1 Hg1 Ha1 Hcm Hreg Hnodup) as [h2 [E2 [HR2 [Hg2 [Ha2 HT2]]]]].
+      exists h2. split; [exact E2|]. split; [exact HR2|]. split; [exact Hg2|]. split; [exact Ha2|].
+      pose proof (tr_trans _ _ _ _ _ _ _ _ HT1 HT2) as H. eapply tr_weaken; [exact H|].
+      intros x Hx. apply in_app_or in Hx as [[<-|[<-|[]]]|Hx]; [left; reflexivity| |exact Hx].
+      right. apply in_map. exact Hrec.
+  Qed.
+
+  (* ---------------- update_genes_from_gpr: the loop over the gene names of the rule *)
+  Definition curg (x g : addr) (pn : list value) : list addr := if has_name (idof h0 g) pn then [x] else [].
+  Definition newG (i : value) : addr := find_id h0 i GG.
+
+  Definition RegNames (l : list value) : Prop := forall i, In i l -> exists q, In q GG /\ idof h0 (r_old q) = Some i.
+
+  Lemma assoc_gene_step : forall h W cm cg r' gs pn nm rec,
+      RI h W cm (fun g => cg g ++ curg r' g pn) ->
+      In gs W -> ~ In gs base -> ~ In r' base ->
+      get h gs = Some (mkCell KSet (set_items (map newG pn))) ->
+      In rec GG -> idof h0 (r_old rec) = Some nm -> ~ In nm pn -> (forall g, ~ In r' (cg g)) -> RegNames pn ->
+      let h2 := assoc_gene m' dlg r' gs h nm in
+      RI h2 W cm (fun g => cg g ++ curg r' g (pn ++ [nm])) /\
+      get h2 gs = Some (mkCell KSet (set_items (map newG (pn ++ [nm])))) /\
+      Tr [gs; r_set rec; r_new rec] h W h2 W.
+  Proof.
+    intros h W cm cg r' gs pn nm rec HR Hgs Hgsb Hrb Hggs Hrec Hid Hnew Hcg Hreg. cbv zeta.
+    pose proof (ri_st _ _ _ _ HR) as HS.
+    unfold assoc_gene.
+    assert (get_by_id h dlg nm = Some (r_new rec)) as Hgb.
+    { eapply get_by_id_found; [apply (ri_dlg _ _ _ _ HR)| |exact HGG_ids|exact Hrec|exact Hid].
+      intros q Hq. eapply ri_gg_id; eauto. }
+    rewrite Hgb. set (g' := r_new rec) in *.
+    destruct (st_set_add n h0 h W gs (Ref g') HS Hgs) as [HS1 HT1].
+    set (h1 := set_add h gs (Ref g')) in *.
+    assert (RI h1 W cm (fun g => cg g ++ curg r' g pn)) as HR1.
+    { eapply ri_tr; [exact HR|exact HS1|exact HT1| |].
+      - intros x [<-|[]]. exact Hgs.
+      - intros x [<-|[]]. exact Hgsb. }
+    pose proof (ri_gg _ _ _ _ HR1 rec Hrec) as [Hnw [Hsw [Hne [Hoc [Hmod [Hlk Hset]]]]]].
+    fold g' in Hlk. rewrite Hlk.
+    assert (has_name (Some nm) pn = false) as Hk0.
+    { cbn. destruct (existsb (value_eqb nm) pn) eqn:E; auto. apply existsb_exists in E as [x [Hx He]].
+      apply value_eqb_eq in He. subst. contradiction. }
+    assert (~ In r' ((fun g => cg g ++ curg r' g pn) (r_old rec))) as Hx.
+    { cbv beta. unfold curg. rewrite Hid, Hk0, app_nil_r. apply Hcg. }
+    destruct (ri_add_gene h1 W cm _ rec r' HR1 Hrec Hx) as [HR2 HT2]. cbv zeta in HR2, HT2.
+    set (h2 := set_add h1 (r_set rec) (Ref r')) in *.
+    destruct (ri_gene_model h2 W cm _ rec HR2 Hrec) as [HR3 HT3]. cbv zeta in HR3, HT3. fold g' in HR3, HT3.
+    set (h3 := set_attr h2 g' "_model" (Ref m')) in *.
+    rewrite (record_undo_noop m' h3 _ (ri_ctx_empty _ _ _ _ HR3)).
+    assert (gs <> r_set rec) as Hgss by (intro Heq; apply Hgsb; rewrite Heq; eapply base_gg; eauto; cbn; auto).
+    assert (gs <> g') as Hgsg by (intro Heq; apply Hgsb; rewrite Heq; eapply base_gg; eauto; cbn; auto).
+    split; [|split].
+    - eapply ri_ext; [exact HR3|auto|]. intros q Hq. cbv beta. unfold curg. rewrite has_name_app.
+      destruct (Nat.eqb (r_old q) (r_old rec)) eqn:E.
+      + apply Nat.eqb_eq in E. rewrite E, Hid, Hk0. cbn [orb has_name existsb]. rewrite value_eqb_refl. cbn [orb].
+        rewrite app_nil_r. reflexivity.
+      + apply Nat.eqb_neq in E.
+        assert (has_name (idof h0 (r_old q)) [nm] = false) as ->.
+        { destruct (idof h0 (r_old q)) as [i|] eqn:Ei; [|reflexivity]. cbn. rewrite orb_false_r.
+          destruct (value_eqb i nm) eqn:Ev; auto. apply value_eqb_eq in Ev. subst i. exfalso. apply E.
+          f_equal. apply gg_id_inj; auto. congruence. }
+        rewrite orb_false_r. reflexivity.
+    - unfold h3. rewrite get_set_attr_ne by auto. unfold h2. rewrite get_set_add_ne by auto.
+      unfold h1, set_add. rewrite (get_put_eq _ _ _ _ _ Hggs). cbn [ckind citems]. rewrite set_item_new.
+      + rewrite map_app, set_items_app. cbn [map set_items]. unfold newG at 3.
+        rewrite (find_id_found h0 GG rec nm HGG_ids Hrec Hid). reflexivity.
+      + rewrite keys_set_items. intro Hin. apply in_map_iff in Hin as [y [Hy Hin]]. inv Hy.
+        apply in_map_iff in Hin as [i [Hi Hin]]. destruct (Hreg i Hin) as [q [Hq Hqi]].
+        unfold newG in Hi. rewrite (find_id_found h0 GG q i HGG_ids Hq Hqi) in Hi.
+        assert (q = rec) as -> by (apply gg_new_inj; auto). apply Hnew. congruence.
+    - pose proof (tr_trans _ _ _ _ _ _ _ _ (tr_trans _ _ _ _ _ _ _ _ HT1 HT2) HT3) as H. exact H.
+  Qed.
+
+  Lemma assoc_genes_loop : forall l h W cm cg r' gs pn,
+      RI h W cm (fun g => cg g ++ curg r' g pn) ->
+      In gs W -> ~ In gs base -> ~ In r' base ->
+      get h gs = Some (mkCell KSet (set_items (map newG pn))) ->
+      (forall g, ~ In r' (cg g)) -> RegNames (pn ++ l) -> NoDup (pn ++ l) ->
+      let h2 := fold_left (assoc_gene m' dlg r' gs) l h in
+      RI h2 W cm (fun g => cg g ++ curg r' g (pn ++ l)) /\
+      get h2 gs = Some (mkCell KSet (set_items (map newG (pn ++ l)))) /\
+      Tr (gs :: map r_set GG ++ map r_new GG) h W h2 W.
+  Proof.
+    induction l as [|nm l IH]; intros h W cm cg r' gs pn HR Hgs Hgsb Hrb Hggs Hcg Hreg Hnodup; cbv zeta.
+    - rewrite app_nil_r. cbn [fold_left]. split; auto. split; auto. eapply tr_weaken; [apply tr_refl|]. intros x [].
+    - assert (In nm (pn ++ nm :: l)) as Hnmin by (apply in_or_app; right; left; reflexivity).
+      destruct (Hreg nm Hnmin) as [rec [Hrec Hid]]. clear Hnmin.
+      assert (~ In nm pn) as Hnew.
+      { apply NoDup_remove_2 in Hnodup. intro Hin. apply Hnodup. apply in_or_app. left. exact Hin. }
+      assert (RegNames pn) as Hregp by (intros x Hx; apply Hreg; apply in_or_app; left; exact Hx).
+      destruct (assoc_gene_step h W cm cg r' gs pn nm rec HR Hgs Hgsb Hrb Hggs Hrec Hid Hnew Hcg Hregp) as [HR1 [Hg1 HT1]].
+      cbv zeta in HR1, Hg1, HT1. cbn [fold_left]. set (h1 := assoc_gene m' dlg r' gs h nm) in *.
+      replace (pn ++ nm :: l) with ((pn ++ [nm]) ++ l) in * by (rewrite <- app_assoc; reflexivity).
+      destruct (IH h1 W cm cg r' gs _ HR1 Hgs Hgsb Hrb Hg1 Hcg Hreg Hnodup) as [HR2 [Hg2 HT2]]. cbv zeta in HR2, Hg2, HT2.
+      split; [exact HR2|]. split; [exact Hg2|].
+      pose proof (tr_trans _ _ _ _ _ _ _ _ HT1 HT2) as H. eapply tr_weaken; [exact H|].
+      intros x Hx. apply in_app_or in Hx as [[<-|[<-|[<-|[]]]]|Hx]; [left; reflexivity| | |exact Hx].
+      + right. apply in_or_app. left. apply in_map. exact Hrec.
+      + right. apply in_or_app. right. apply in_map. exact Hrec.
+  Qed.
 End Rxn.
